@@ -97,7 +97,7 @@ func genPeerID(t *rapid.T) p2p.PeerID {
 	return id
 }
 
-var schemeGen = rapid.StringMatching(`[a-z][a-z0-9+.\-]{0,11}`)
+var schemeGen = rapid.StringMatching(`[a-zA-Z][a-zA-Z0-9+.\-]{0,11}`) // transport names are used as configured: mixed case included
 
 func genAddr(t *rapid.T, depth int) addrCase {
 	kinds := []string{"mem", "udp", "ssh"}
